@@ -419,3 +419,55 @@ func verifHarness_C08_read_limit_incomplete_body_small_reads() {
 	}
 	verifAssert(false, "witness")
 }
+
+// framing metadata that must be refused rather than guessed at: junk between
+// a framing header's name and its colon, two different Content-Length values,
+// a bare LF or stray bytes in a status line.
+func verifHarness_C08_framing_metadata_not_guessed() {
+	e := verifHTTPEngine()
+	junk := verifByte("junk")
+	// (blanks alone between name and colon are tolerated — the repository's own
+	// parser tests contain such lines — so the junk is a letter or a tab)
+	verifAssume(verifOr(junk == '\t', verifAnd(junk >= 'a', junk <= 'z')))
+	client := false
+	var w []byte
+	name := ""
+	switch verifChoose("form", 6) {
+	case 0: // "Content-Length <junk>: 3"
+		name = "junk-between-name-and-colon/content-length"
+		w = []byte("POST / HTTP/1.1\r\nContent-Length ")
+		w = append(w, junk, ':', ' ', '3', '\r', '\n', '\r', '\n', 'a', 'b', 'c')
+	case 1: // "Transfer-Encoding <junk>: chunked"
+		name = "junk-between-name-and-colon/transfer-encoding"
+		w = []byte("POST / HTTP/1.1\r\nTransfer-Encoding ")
+		w = append(w, junk, ':', ' ')
+		w = append(w, "chunked\r\n\r\n0\r\n\r\n"...)
+	case 2: // two Content-Length headers that disagree
+		name = "two-different-content-lengths"
+		d := verifByte("second_length")
+		verifAssume(verifAnd(d >= '0', d <= '9'))
+		verifAssume(d != '3')
+		w = []byte("POST / HTTP/1.1\r\nContent-Length: 3\r\nContent-Length: ")
+		w = append(w, d)
+		w = append(w, "\r\n\r\nabcdefghij"...)
+	case 3: // bare LF ends the status line (client)
+		client = true
+		name = "bare-lf-in-status-line"
+		w = []byte("HTTP/1.1 200 OK\nContent-Length: 2\r\n\r\nab")
+	case 4: // stray bytes before the status code (client)
+		client = true
+		name = "junk-before-status-code"
+		w = []byte("HTTP/1.1 ")
+		w = append(w, junk, junk)
+		w = append(w, "200 OK\r\nContent-Length: 0\r\n\r\n"...)
+	case 5: // bare LF inside a trailer value
+		name = "bare-lf-in-trailer-value"
+		w = []byte("POST / HTTP/1.1\r\nTransfer-Encoding: chunked\r\nTrailer: X\r\n\r\n0\r\nX: a\nb\r\n\r\n")
+	}
+	rec := &verifRecorder{}
+	p := NewParser(&verifNetConn{failAt: -1}, e, rec, client, nil)
+	err := p.Parse(append([]byte(nil), w...))
+	verifAssertD(err != nil, "malformed-framing-metadata-rejected", name)
+	verifAssertD(rec.completed == 0, "nothing-completed-from-malformed-framing", name)
+	verifAssert(false, "witness")
+}
